@@ -110,7 +110,8 @@ def field_options():
     absent_id = "12" * 32
     return {
         "ids": [[ids["a_k1_t10_ea"]], [ids["a_k1_t20_idff"]], [ids["a_k1_t20_id00"], ids["b_k1_t20_eb"]], [absent_id],
-                [ids["a_k1_t20_idff"], ids["a_k1_t20_id00"], ids["a_k255_T_nul"]]],
+                [ids["a_k1_t20_idff"], ids["a_k1_t20_id00"], ids["a_k255_T_nul"]],
+                [ids["a_k1_t20_idff"], ids["b_k1_t20_eb"], ids["a_k1_t20_eab"]]],  # three stored events sharing one created_at
         "authors": [[A], [B], [A, B], [C], [PK["S"]]],
         "kinds": [[1], [2], [1, 2], [255], [256], [255, 256], [7], [0, 1, 257], [1, 3], [254, 256]],  # the last two: one stored kind in the gap
         "#e": [["a"], ["ab"], ["a", "ab"], ["b"], ["abc", "a"], ["zz"]],
